@@ -1215,6 +1215,15 @@ func (e *env) call(x *CallE) any {
 		}
 		a, b := sliceOf(e.eval(x.Args[0]), x.Args[0]), sliceOf(e.eval(x.Args[1]), x.Args[1])
 		return a.Len() == b.Len() && (a.Cap() == 0 && b.Cap() == 0 || a.Pointer() == b.Pointer())
+	case "suffixof":
+		a, b := sliceOf(e.eval(x.Args[0]), x.Args[0]), sliceOf(e.eval(x.Args[1]), x.Args[1])
+		if a.Len() > b.Len() {
+			return false
+		}
+		if a.Len() == 0 {
+			return true // an empty suffix: the position is not observable
+		}
+		return b.Slice(b.Len()-a.Len(), b.Len()).Pointer() == a.Pointer()
 	case "samearray":
 		a, b := sliceOf(e.eval(x.Args[0]), x.Args[0]), sliceOf(e.eval(x.Args[1]), x.Args[1])
 		return a.Cap() == 0 && b.Cap() == 0 || a.Pointer() == b.Pointer()
